@@ -363,7 +363,8 @@ def build (i : CtorIn) (r : Resolved) : R Body :=
   | some m =>
   -- default (qube.py:413-427): a given default of the item's shape must be castable to the values' kind
   let dOther : Bool := match r.dflt with | some (s, k) => s == item && k == Kind.other | none => false
-  if dOther then none else
+  -- (`_casted_to_dtype` to "bool" is `arg != 0`, which never raises)
+  if dOther && v.kind != Kind.bool then none else
   some (assemble i.cls v m values.shape nrank drank (defaultShape info r.dflt drank item) (r.units == RawUnits.some))
 
 /-- qube.py:233-428 without the installation of derivatives.  Returns the new object (no derivatives yet). -/
@@ -401,7 +402,7 @@ def broadcastTo (o : ObjDump) (shape : List Nat) : R ObjDump :=
     -- special case: broadcast to () (qube.py:4560-4576)
     let vals : R RawArr :=
       if b.rank == 0 then
-        (if b.varr then (if size b.vshape == 0 then none else some ⟨false, [], b.kind, true⟩) else some (bodyValues b).norm)
+        (if b.varr then (if size b.vshape == 1 then some ⟨false, [], b.kind, true⟩ else none) else some (bodyValues b).norm)
       else if b.varr && size b.vshape == size b.item then some ⟨true, b.item, b.kind, b.vwritable⟩ else none
     let mask : R RawMask :=
       match b.mask with
@@ -449,12 +450,12 @@ def insertDeriv (p : ObjDump) (key : String) (d : ObjDump) (override : Bool) : R
   match asFloat (cloneBare d) with
   | none => none
   | some d1 =>
-  -- match read-only status of the parent
-  let d2 := if p.body.readonly && !d1.body.readonly then bare (bodyReadonly d1.body) else d1
-  -- broadcast
-  match (if d2.body.shape != p.body.shape then broadcastTo d2 p.body.shape else some d2) with
+  -- broadcast to the parent's shape
+  match (if d1.body.shape != p.body.shape then broadcastTo d1 p.body.shape else some d1) with
   | none => none
-  | some d3 =>
+  | some d2 =>
+    -- match read-only status of the parent (repaired: after the broadcast)
+    let d3 := if p.body.readonly && !d2.body.readonly then bare (bodyReadonly d2.body) else d2
     some { p with derivs := setAssoc key (cloneBare d3) p.derivs, attrs := setAssoc key true p.attrs }
 
 /-- qube.py:1548-1571 `insert_derivs(derivs)`: inserts in order; raises at the first failure (earlier ones stay) -/
